@@ -12,7 +12,7 @@ static const char* OPNAME[] = {"Evolve(0)", "Evolve(0.3)", "Evolve(0.7)", "Evolv
                                "stepper-rkf45", "stepper-rk4", "stepper-msadams", "toggle-adaptive", "toggle-tolerance", "toggle-h_min(1e-3)", "toggle-h_max(0.05)", "move-construct", "move-assign-into-fresh", "move-assign-into-used", "re-ini"};
 
 struct Model {
-  Problem P; double tini, t; std::vector<double> y; bool any; int stepper; bool adaptive; bool tight; bool hmin_raised; bool hmax_lowered; int segments; double clock_slack;
+  Problem P; double tini, t; std::vector<double> y; bool any; int stepper; bool adaptive; bool tight; bool hmin_raised; bool hmax_lowered; bool refused; int segments; double clock_slack;
 };
 
 static std::string hist_str(const std::vector<int>& h, int nsun) { std::string s = "nsun=" + std::to_string(nsun) + ":"; for (size_t i = 0; i < h.size(); i++) { if (i) s += ","; s += std::to_string(h[i]); } return s; }
@@ -30,7 +30,7 @@ static const gsl_odeiv2_step_type* steptype(int s) { return s == 0 ? gsl_odeiv2_
 static bool run_history(const std::vector<int>& h, int nsun, bool report) {
   Model m; m.P.nx = 2; m.P.d = nsun; m.P.nrho = 1; m.P.nsc = 1; m.P.family = 0; m.P.kappa = 0.3; m.P.kappa2 = 0.0;
   bool sw0[5] = {true, false, false, true, false}; for (int b = 0; b < 5; b++) m.P.sw[b] = sw0[b];
-  m.tini = 0.5; m.t = 0.5; m.y = probe_state(m.P, 0); m.any = true; m.stepper = 0; m.adaptive = true; m.tight = true; m.hmin_raised = false; m.hmax_lowered = false; m.segments = 0; m.clock_slack = 0;
+  m.tini = 0.5; m.t = 0.5; m.y = probe_state(m.P, 0); m.any = true; m.stepper = 0; m.adaptive = true; m.tight = true; m.hmin_raised = false; m.hmax_lowered = false; m.refused = false; m.segments = 0; m.clock_slack = 0;
   std::unique_ptr<Probe> cur(new Probe(m.P, m.tini));
   cur->Set_rel_error(1e-10); cur->Set_abs_error(1e-10); cur->Set_h(1e-4); cur->Set_NumSteps(400);
   cur->set_flat(m.y);
@@ -42,6 +42,9 @@ static bool run_history(const std::vector<int>& h, int nsun, bool report) {
   for (size_t i = 0; i < h.size(); i++) {
     int op = h[i];
     if (!enabled(m, op)) return false;
+    // after a refused Evolve the object's state is whatever the failed attempt left; the one thing the property still promises is
+    // that re-initialisation gives a fresh clock, state and views
+    if (m.refused) { if (op != REINIT) return true; m.refused = false; count("reinit_after_refused_evolve"); }
     count("transitions");
     switch (op) {
       case EV0: case EV3: case EV7: case EVS: {
@@ -50,7 +53,7 @@ static bool run_history(const std::vector<int>& h, int nsun, bool report) {
         try { cur->Evolve(dt); }
         catch (const std::exception& ex) {
           // with the minimum step raised by the user the adaptive controller may be unable to meet the tolerance: reporting that is correct
-          if (m.hmin_raised && m.any && m.adaptive && dt > 0) { count("evolve_refused_under_raised_h_min"); return true; }
+          if (m.hmin_raised && m.any && m.adaptive && dt > 0) { count("evolve_refused_under_raised_h_min"); m.refused = true; break; }
           viol(std::string("Evolve:throws:dt=") + (dt == 0 ? "0" : "positive") + (m.adaptive ? ":adaptive" : ":fixed"), i, ",\"what\":" + jstr(ex.what())); return true;
         }
         double t1 = m.t + dt;
